@@ -1,6 +1,3 @@
-use crate::parser::{post_feed, Function};
-use crate::terminal::post_execute;
-use crate::MEM_MAX;
 
 impl Vt {
     /// [C02] invariant of the whole emulator
